@@ -127,12 +127,68 @@ def end_to_end(ctx, stg):
     return n, failures
 
 
+def notes_through_conflict(stg):
+    """a note (and the authorship / message) follows a patch through a push that stops with a
+    conflict, through the resolution and the refresh, through undo and a conflict-free re-push"""
+    failures = []
+    n = 0
+    with repo.Scratch("c08n") as r:
+        r.init_repo()
+        r.write("f.txt", "line\n")
+        r.git(["add", "-A"])
+        r.git(["commit", "-q", "-m", "f"])
+        r.stg(stg, ["init"])
+        idents = {}
+        for nm, text, ident in (("p1", "one\n", IDENTITIES[1]), ("p2", "two\n", IDENTITIES[2])):
+            r.stg(stg, ["new", "--author", "%s <%s>" % ident[:2], "-m", "subject %s\n\nbody of %s\n" % (nm, nm), nm])
+            r.write("f.txt", text)
+            r.write(nm + ".txt", nm + "\n")
+            r.git(["add", "-A"])
+            r.stg(stg, ["refresh"])
+            if nm == "p1":
+                r.stg(stg, ["pop"])
+        # p2 was made on the base: both change f.txt, so pushing p1 on top of p2 conflicts
+        for nm in ("p1", "p2"):
+            oid = r.rev("refs/patches/main/" + nm)
+            r.git(["notes", "add", "-m", "note for " + nm, oid])
+            idents[nm] = describe(r, oid)
+
+        def check(after):
+            for nm in ("p1", "p2"):
+                oid = r.rev("refs/patches/main/" + nm)
+                if oid is None:
+                    failures.append({"after": after, "patch": nm, "why": "patch ref is gone"})
+                    continue
+                note = r.git(["notes", "show", oid], check=False)
+                if note.returncode != 0 or ("note for " + nm) not in note.stdout:
+                    failures.append({"after": after, "patch": nm, "why": "git note did not follow the patch"})
+                if describe(r, oid) != idents[nm]:
+                    failures.append({"after": after, "patch": nm, "why": "authorship or message changed"})
+
+        steps = [(["push", "p1"], 3), (None, 0), (["refresh"], 0), (["undo"], 0), (["undo", "--hard"], 0),
+                 (["pop", "-a"], 0), (["push", "p1"], 0), (["push", "--set-tree", "p2"], 0), (["pop", "-a"], 0)]
+        for argv, want in steps:
+            if argv is None:
+                r.write("f.txt", "resolved\n")
+                r.git(["add", "-A"])
+                continue
+            p = r.stg(stg, argv)
+            n += 1
+            check(argv)
+            if failures:
+                break
+    return n, failures
+
+
 def run(ctx):
     histcheck.run_property(ctx, PROFILES, ORACLES, n_quick=32, n_thorough=500, nsteps=32 if ctx.quick() else 45,
                            own_oracle="c08")
     stg = common.build_stg()
     known = {k["id"]: k for k in histcheck.load_known("C08")}
     n, failures = end_to_end(ctx, stg)
+    n2, f2 = notes_through_conflict(stg)
+    n += n2
+    failures += f2
     ctx.coverage["end_to_end_operations"] = n
     ctx.coverage["evaluations"] = ctx.coverage.get("evaluations", 0) + n
     for f in failures[:3]:
